@@ -137,7 +137,16 @@ impl FilterBodyAction {
                 log::error!("error while ending filtering: {}", err);
                 self.in_error = true;
 
-                Vec::new()
+                // Nothing of this call has been emitted yet: give back what the html filters still hold, oldest bytes first
+                let mut passthrough = Vec::new();
+
+                for item in self.chain.iter_mut().rev() {
+                    if let FilterBodyActionItem::Html(html_body_filter) = item {
+                        passthrough.extend(html_body_filter.end());
+                    }
+                }
+
+                passthrough
             }
         }
     }
